@@ -870,18 +870,18 @@ _NT = "some dimension has tile depth >= 2, or the layout is dynamic, or offset !
 
 SUBS = [
     Sub("affine_map", st_static, prop_affine, budget=dict(quick=4000, thorough=150000), exhaustive=exh_static,
-        floor=dict(quick=1500, thorough=40000), nontrivial_rule=_NT),
+        floor=dict(quick=7000, thorough=40000), nontrivial_rule=_NT),
     Sub("values_overlap_dense", st_static, prop_values, budget=dict(quick=5000, thorough=200000), exhaustive=exh_static,
-        floor=dict(quick=1500, thorough=40000), nontrivial_rule=_NT),
+        floor=dict(quick=7000, thorough=40000), nontrivial_rule=_NT),
     Sub("bound_step_ops", st_ops, prop_ops, budget=dict(quick=6000, thorough=150000),
-        floor=dict(quick=1200, thorough=30000), nontrivial_rule=_NT),
+        floor=dict(quick=1100, thorough=30000), nontrivial_rule=_NT),
     Sub("text_roundtrip", st_text, prop_text, budget=dict(quick=4000, thorough=120000), exhaustive=exh_text,
-        floor=dict(quick=1200, thorough=30000), nontrivial_rule=_NT),
+        floor=dict(quick=1500, thorough=30000), nontrivial_rule=_NT),
     Sub("build_canonicalize", st_build, prop_build, budget=dict(quick=5000, thorough=200000), exhaustive=exh_canon,
-        floor=dict(quick=800, thorough=20000),
+        floor=dict(quick=4500, thorough=20000),
         nontrivial_rule=_NT + "; for canonicalize additionally the canonical form differs from the input"),
     Sub("common_block", st_lccb, prop_lccb, budget=dict(quick=5000, thorough=150000),
-        floor=dict(quick=500, thorough=15000), nontrivial_rule="the reported block has more than one element and " + _NT),
+        floor=dict(quick=450, thorough=15000), nontrivial_rule="the reported block has more than one element and " + _NT),
     Sub("subview_pointer", st_ptr, prop_ptr, budget=dict(quick=1000, thorough=30000),
-        floor=dict(quick=150, thorough=4000), nontrivial_rule="some subview offset is non-zero and " + _NT),
+        floor=dict(quick=110, thorough=4000), nontrivial_rule="some subview offset is non-zero and " + _NT),
 ]
